@@ -500,14 +500,37 @@ def call_case(files, archives, fid, entries, limit, rel, dmg, batching):
 
 
 # --------------------------------------------------------------------------- running the real calls
-def run_restore(S: Snap, snapdir: str, batching: bool):
+_CALLS = {"n": 0, "last_in_loop": False}
+
+
+def _in_loop(flag):
+    """every third real call is made by a caller that is itself inside a running asyncio event loop (notebook kernel,
+    async training harness): the library then runs its I/O on the patched, re-entrant loop of asyncio_utils.py"""
+    _CALLS["n"] += 1
+    v = (_CALLS["n"] % 3 == 0) if flag is None else bool(flag)
+    _CALLS["last_in_loop"] = v
+    return v
+
+
+def _maybe_in_loop(fn, in_loop):
+    if not in_loop:
+        return fn()
+    import asyncio
+
+    async def main():
+        return fn()          # a synchronous torchsnapshot call made from inside a running loop
+    return asyncio.run(main())
+
+
+def run_restore(S: Snap, snapdir: str, batching: bool, in_loop=None):
     """-> (verdict 'ok'|'err'|'hang', wrong paths, exception)"""
     from torchsnapshot import Snapshot
     st = app_state(S.items, sentinel=True)
+    il = _in_loop(in_loop)
 
     def call():
         with quiet(), read_env(batching):
-            Snapshot(snapdir).restore(st)
+            _maybe_in_loop(lambda: Snapshot(snapdir).restore(st), il)
     kind, exc = guarded(call)
     wrong = []
     if kind == "ok":
@@ -517,14 +540,15 @@ def run_restore(S: Snap, snapdir: str, batching: bool):
     return kind, wrong, exc
 
 
-def run_read_object(S: Snap, snapdir: str, path: str, batching: bool, limit, inplace: bool):
+def run_read_object(S: Snap, snapdir: str, path: str, batching: bool, limit, inplace: bool, in_loop=None):
     from torchsnapshot import Snapshot
     it = S.flat[path]
     out = materialise(it, sentinel=True) if (inplace and it[0] == "t") else None
+    il = _in_loop(in_loop)
 
     def call():
         with quiet(), read_env(batching):
-            return Snapshot(snapdir).read_object("0/" + path, obj_out=out, memory_budget_bytes=limit)
+            return _maybe_in_loop(lambda: Snapshot(snapdir).read_object("0/" + path, obj_out=out, memory_budget_bytes=limit), il)
     kind, got = guarded(call)
     wrong = []
     if kind == "ok":
@@ -538,7 +562,7 @@ def run_read_object(S: Snap, snapdir: str, path: str, batching: bool, limit, inp
 def judge(res: Result, S: Snap, api, path, rel, dmg, batching, limit, inplace, kind, wrong, damaged, exc=None):
     """Direct oracle on one real call."""
     rep = {"kind": "call", "spec": S.spec, "api": api, "path": path, "file_role": S.file_role(rel) if rel else None,
-           "damage": list(dmg), "batching": batching, "limit": limit, "inplace": inplace}
+           "damage": list(dmg), "batching": batching, "limit": limit, "inplace": inplace, "in_loop": _CALLS["last_in_loop"]}
     ek = entry_kind(S.entries[path]) if path else "all"
     tag = f"{api}:{ek}:batching={'on' if batching else 'off'}:{dmg[0]}"
     if kind == "hang":
@@ -1150,11 +1174,11 @@ def replay(ctx: Ctx, data):
             with safe_gc():
                 if data["api"] == "restore":
                     reads = [x for p in S.entries for x in S.reads[p]]
-                    kind, wrong, exc = run_restore(S, copy, data["batching"])
+                    kind, wrong, exc = run_restore(S, copy, data["batching"], in_loop=data.get("in_loop", False))
                 else:
                     reads = S.reads[data["path"]]
                     kind, wrong, exc = run_read_object(S, copy, data["path"], data["batching"], data.get("limit"),
-                                                       data.get("inplace", False))
+                                                       data.get("inplace", False), in_loop=data.get("in_loop", False))
             damaged = is_damaged(reads, rel, dmg, S.files[rel])
             judge(res, S, data["api"], data.get("path"), rel, dmg, data["batching"], data.get("limit"),
                   data.get("inplace", False), kind, wrong, damaged, exc)
